@@ -37,6 +37,7 @@ DEFAULT_CFG = {
     "encoding": None, "dialect": "default", "bufsize": 8192,
     "copy_chunk": 0, "locale": "utf-8", "tz": "UTC", "access_mode": "r+",
     "tmp_same_fs": False, "triggers": False, "text_chunk": None,
+    "path_kind": "str",
 }
 
 QUERY_READS = ("search", "count", "contains", "get", "select")
@@ -401,8 +402,12 @@ class World:
         self.suspended = None
         if self.csv:
             kw = dict(self.dialect)
+            path = DB_PATH
+            if self.cfg.get("path_kind") == "pathlib":
+                import pathlib
+                path = pathlib.PurePosixPath(DB_PATH)
             self.db = tf.TinyFlux(
-                DB_PATH, auto_index=self.auto_index, access_mode=self.mode,
+                path, auto_index=self.auto_index, access_mode=self.mode,
                 encoding=self.cfg["encoding"],
                 flush_on_insert=self.cfg["flush_on_insert"], **kw)
         else:
